@@ -106,7 +106,7 @@ def detect(name, props):
     try:
         for p in props:
             t0 = time.time()
-            rc, out = sh(f"./check {p}", cwd="/verif", timeout=1800)
+            rc, out = sh(f"VERIF_NO_EVIDENCE=1 ./check {p}", cwd="/verif", timeout=1800)
             v = [l for l in out.splitlines() if l.startswith("VIOLATION")]
             results[p] = {"rc": rc, "violation": v[:2], "wall_s": round(time.time() - t0)}
             print(name, p, "rc=%d" % rc, v[:1], flush=True)
